@@ -24,15 +24,15 @@ for g, q in zip(got, req):
         continue
     parts = q.split()
     modes, mask, inp = parts[2], parts[3], parts[7]
-    if any(e["match"]["line_regex"].startswith("enc o %s %s " % (modes, mask)) and e["match"]["line_regex"].endswith(" - %s " % inp) for e in new):
+    if any(e["match"]["line_regex"].startswith("enc o %s %s " % (modes, mask)) and e["match"]["line_regex"].endswith(" - %s " % inp) and re.search(e["match"]["line_regex"], "O " + q) for e in new):
         continue
     wit = g.split("witness:")[1]
     r = subprocess.run([os.path.join(ROOT, "harness/target/debug/dmh"), "ddata", wit], capture_output=True, text=True).stdout.strip()
     ok = (r == "ok:" + inp)
     n += 1
     new.append({"property": "C10", "kind": "known", "id": "K-B%d" % n,
-                "match": {"line_regex": "enc o %s %s \\d \\d - %s " % (modes, mask, inp)},
-                "what": "planner misses a shorter plan (pruning / end-of-data pricing): modes=%s list=%s input=%s: %s; witness stream %s decodes to the input with the crate's own decoder: %s" % (
+                "match": {"line_regex": ("enc o %s %s \\d \\d - %s " % (modes, mask, inp)) if parts[5] == "0" else ("enc o %s %s \\d 1 - %s " % (modes, mask, inp))},
+                "what": "planner misses a shorter plan (pruning / end-of-data pricing)" + (" behind an FNC1 start codeword" if parts[5] == "1" else "") + ": modes=%s list=%s input=%s: %s; witness stream %s decodes to the input with the crate's own decoder: %s" % (
                     modes, mask, inp, g.split(":witness")[0].replace("fail:o:", ""), wit, ok)})
 for e in new:
     print(json.dumps(e))
